@@ -297,21 +297,42 @@ def angle_base(h):
     c.deriv[cv] = lambda wrt, cache, h=h, s=s: -s * diff(h, wrt, cache)
     c.angle_bases.append((h, s, co))
 
+def _rebase(b, s, co, r):
+    """replace base b (atoms s, co) by the finer base b/r: the old atoms become polynomials
+    sin(r h'), cos(r h') of the new ones (degree-1 rewrite rules)"""
+    c = C()
+    def single_var(x):
+        if x.den or x.num.nterms() != 1: return None
+        (m, cc), = x.num.t.items()
+        return m[0][0] if cc == 1 and len(m) == 1 and m[0][1] == 1 else None
+    sv, cv = single_var(s), single_var(co)
+    if sv is None or cv is None:
+        raise EngineGap(f"cannot refine the derived angle base {b!r}")
+    c.angle_bases = [e for e in c.angle_bases if e[0] is not b]
+    c.rules.pop(sv, None)
+    h = _strip(b / r)
+    angle_base(h)
+    (_, s2, c2) = c.angle_bases[-1]
+    S, Cc = _multiple_angle(s2, c2, r)
+    c.add_rule(sv, 1, S.num); c.add_rule(cv, 1, Cc.num)
+
+
 def sincos(arg):
     arg = Frac.of(arg); c = C()
     g0 = arg.guards; arg = _strip(arg)
     if arg.num.is_zero():
         return Frac(Poly({}), None, g0), Frac(Poly.const(1), None, g0)
-    for _try in range(2):
-        for (b, s, co) in c.angle_bases:
+    for _try in range(4):
+        for (b, s, co) in list(c.angle_bases):
             q = _ratio_const(arg, b)
             if q is None: continue
             if q.denominator != 1:
-                raise EngineGap(f"angle {arg!r} is a non-integer multiple {q} of base {b!r}; "
-                                f"declare the finer base first")
+                _rebase(b, s, co, q.denominator)
+                break
             S, Cc = _multiple_angle(s, co, int(q))
             return Frac(S.num, S.den, S.guards | g0), Frac(Cc.num, Cc.den, Cc.guards | g0)
-        angle_base(arg)
+        else:
+            angle_base(arg)
     raise AssertionError
 
 def sin(x): return sincos(x)[0]
